@@ -239,3 +239,14 @@ def suites(tier, seed):
                   rule="methods on channels 65534 and 65535 (channel_max 65535) pass through the real I/O loop onto the wire like on any other channel"),
             Suite("api", "api", lambda: gen(tier, seed), monitor=monitor, nontrivial=nontrivial, canon=apigen.canon, shards=4, timeout=60,
                   rule="directed cross-channel ack/nack/reject cases for every acknowledging entry point (Delivery::* and Consumer::*) + random sessions over 36 kinds of public operations on 1-3 channels (Channel, Queue, Exchange, Consumer, Delivery, Connection), every boolean option drawn independently, strings incl. empty / 255 bytes / multibyte UTF-8, nested field tables, all 14 message properties, numeric extremes; synchronous calls answered by pre-loaded replies (4% of a wrong type), some after the I/O side is gone or with an error queued")]
+
+
+# --- suites of neighbouring properties that also decide this one (cross-listed after wave 6) ---------
+_suites_before_wave6 = suites
+
+
+def suites(tier, seed):
+    def borrow(mod, names):
+        m = __import__("props." + mod, fromlist=["x"])
+        return [s_ for s_ in m.suites(tier, seed) if s_.name in names]
+    return (borrow("c01", ("close-under-backlog",)) + borrow("c18", ("resume", "water-mark-boundaries", "stall-e2e"))) + _suites_before_wave6(tier, seed)
